@@ -212,11 +212,13 @@ def exists(sem, bounds, body, name="e"):
 # frames handed to contract clauses
 # --------------------------------------------------------------------------------------
 class ArrAcc:
-    def __init__(self, heap, arrv):
-        self._heap, self._v = heap, arrv
+    def __init__(self, heap, arrv, sem=None):
+        self._heap, self._v, self._sem = heap, arrv, sem
         self.shape = arrv.shape
 
     def __call__(self, *idx):
+        if self._sem is not None:
+            idx = tuple(self._sem.idx_const(i) if isinstance(i, int) else i for i in idx)
         return self._v.sel(self._heap, idx, None)
 
 
@@ -250,10 +252,10 @@ class Frame:
             if isinstance(v, Sc):
                 setattr(self, n, v.t)
             elif isinstance(v, ArrV):
-                setattr(self.pre, n, ArrAcc(pre_heap, v))
+                setattr(self.pre, n, ArrAcc(pre_heap, v, sem))
                 setattr(self, n, getattr(self.pre, n))
                 if post_heap is not None:
-                    setattr(self.post, n, ArrAcc(post_heap, v))
+                    setattr(self.post, n, ArrAcc(post_heap, v, sem))
             elif isinstance(v, BytesV):
                 setattr(self, n, BytesAcc(pre_heap, v))
             else:
@@ -347,6 +349,9 @@ class Path:
         return p
 
 
+FLOAT_SAFETY = ("fptoint-in-range", "log-positive", "float-div-nonzero")
+
+
 class PathEnd(Exception):
     pass
 
@@ -374,7 +379,8 @@ class Engine:
         self.contract = contract
         self.registry = registry
         self.sem = S.Sem(contract.mode if contract is not None else tir_mode(tir, registry))
-        self.unroll = unroll
+        self.unroll = unroll  # no loop cut points: loops are executed (bounds must become concrete)
+        self.interp = unroll and concrete_args is not None  # concrete interpreter (encoder cross-check)
         self.fixed = fixed or {}
         self.concrete_args = concrete_args
         self.blocks = tir.blocks
@@ -392,6 +398,7 @@ class Engine:
         self.assumed = []  # names of assumed facts (callee ensures, definitional axioms)
         self.unsupported = None
         self.hints = []
+        self.float_safety = getattr(contract, "float_safety", False)
         self.clause_filter = None  # fn(contract name, clause name) -> bool : restrict to a property's cone
 
     # ------------------------------------------------------------------ entry
@@ -527,7 +534,7 @@ class Engine:
             work.extend(nxt)
 
     def _emit(self, kind, clause, p, goal, loc=None):
-        if self.unroll:
+        if self.interp:
             g = as_py(goal) if not isinstance(goal, bool) else goal
             if g is not True:
                 # in interpreter mode an unmet safety obligation means the real code would misbehave
@@ -582,7 +589,7 @@ class Engine:
                     return self._goto(st.truebr, label, p)
                 if cv is False:
                     return self._goto(st.falsebr, label, p)
-                if self.unroll:
+                if self.interp:
                     raise Unsupported("symbolic branch in interpreter mode")
                 p2 = p.fork()
                 p.pc.append(ct)
@@ -660,8 +667,8 @@ class Engine:
             ent = NS()
             for nme, v in self.argvals.items():
                 if isinstance(v, ArrV):
-                    setattr(cur, nme, ArrAcc(p.heap, v))
-                    setattr(ent, nme, ArrAcc(entry_heap, v))
+                    setattr(cur, nme, ArrAcc(p.heap, v, sem))
+                    setattr(ent, nme, ArrAcc(entry_heap, v, sem))
 
             def varfn(name, p=p, li=li):
                 return self._lookup_source_var(name, p, li)
@@ -774,7 +781,7 @@ class Engine:
 
     # ------------------------------------------------------------------ function exit
     def _return(self, val, p):
-        if self.unroll:
+        if self.interp:
             self.results.append(("return", val, p))
             return
         val = self._cast_value(val, self.tir.return_type)
@@ -790,7 +797,7 @@ class Engine:
         F.loop_k = lambda ordinal, p=p: p.exit_k.get(ordinal)
         F.locals = lambda name, p=p: [p.env[v].t for b, v in p.versions if b == name and isinstance(p.env.get(v), Sc)]
         base_pc = p.pc
-        extra = []
+        extra = list(self.contract.post_defs(F))
         rewrites = []
         for name, f in self.contract.ensures(F):
             if not self._clause_ok(self.contract, name):
@@ -820,12 +827,12 @@ class Engine:
         for n, v in self.argvals.items():
             if isinstance(v, ArrV) and n not in self.contract.modifies:
                 if p.heap[v.aid] is not self.entry_heap[v.aid]:
-                    pre, post = ArrAcc(self.entry_heap, v), ArrAcc(p.heap, v)
+                    pre, post = ArrAcc(self.entry_heap, v, self.sem), ArrAcc(p.heap, v, self.sem)
                     f = forall(self.sem, [(0, s_) for s_ in v.shape], lambda *i: pre(*i) == post(*i))
                     self._emit("frame", "unchanged:" + n, p, f, self.cur_loc)
 
     def _raise(self, cls, p):
-        if self.unroll:
+        if self.interp:
             self.results.append(("raise", cls, p))
             return
         allowed = []
@@ -898,6 +905,9 @@ class Engine:
                 raise Unsupported("IR expr op %s" % op)
         finally:
             for kind, f in obl:
+                if kind in FLOAT_SAFETY and not self.float_safety:
+                    self.sem.assumptions.add("float side conditions not checked (%s): float64 treated as real" % kind)
+                    continue
                 self._emit("safety", "%s@L%s" % (kind, self.cur_loc), p, f, self.cur_loc)
         return r
 
@@ -1025,13 +1035,34 @@ class Engine:
         sem = self.sem
         pf = fty.dispatcher.py_func
         names = list(pf.__code__.co_varnames[: pf.__code__.co_argcount])
-        if self.unroll:
+        if self.interp:
             # interpreter mode: recursively interpret the callee's own IR
             from .extract import typed_ir
 
             tir = typed_ir(fty.dispatcher)
+            cmode = tir_mode(tir, self.registry)
+            if cmode != sem.mode:
+                # callee lives in the other integer encoding (hash kernels are bit-vector mode):
+                # pass concrete python values across and convert the result back
+                conc = []
+                for a_ in args:
+                    if isinstance(a_, Sc):
+                        conc.append(as_py(a_.t))
+                    elif isinstance(a_, BytesV):
+                        n_ = as_py(a_.length)
+                        conc.append(bytes(as_py(a_.byte(p.heap, sem.idx_const(j), None)) for j in range(n_)))
+                    else:
+                        raise Unsupported("cross-mode interpreter call with %s" % type(a_).__name__)
+                sub = Engine(tir, None, self.registry, unroll=True, concrete_args=conc)
+                sub.run()
+                rets = [r for r in sub.results if r[0] == "return"]
+                if len(rets) != 1 or len(sub.results) != 1:
+                    raise InterpRaise(sub.results[:1])
+                rv = rets[0][1]
+                return sem.const(as_py(rv.t), rv.ty)
             sub = Engine(tir, None, self.registry, unroll=True)
             sub.sem = sem
+            sub.interp = True
             return sub.interpret_with(args, p, sig)
         c = self._callee_contract(fty)
         cname = c.name
@@ -1067,6 +1098,8 @@ class Engine:
             setattr(g, gname, sort(uid(gname + "!cg")) if callable(sort) else z3.Const(uid(gname + "!cg"), sort))
         F.g = F2.g = g
         for f in c.call_defs(F):
+            p.pc.append(f)
+        for f in c.post_defs(F2):
             p.pc.append(f)
         for en, f in c.call_ensures(F2, sem.mode):
             if en.startswith("hint:"):
@@ -1117,7 +1150,7 @@ class Engine:
     def _quick(self, p, f, rlimit=8_000_000):
         """is f implied by the path condition?  (cheap solver query; used only to *simplify* terms,
         a 'no'/'unknown' keeps the general form, so soundness never depends on it)"""
-        if self.unroll:
+        if self.interp:
             return as_py(f) is True
         s_ = z3.Solver()
         s_.set("rlimit", rlimit)
@@ -1197,6 +1230,17 @@ class Engine:
                     base.shape[k:],
                     imap=lambda rest, pre=pre, bm=base.imap: bm(pre + tuple(rest)),
                     readonly=base.readonly,
+                    owner=base.owner,
+                )
+            if len(idxs) == 1 and isinstance(idxs[0], SliceV) and base.ndim == 1:
+                start, ln = self._fix_slice(idxs[0], base.shape[0], p)
+                return ArrV(
+                    base.aid,
+                    base.dtype,
+                    (ln,),
+                    imap=lambda rest, start=start, bm=base.imap: bm((start + rest[0],)),
+                    readonly=base.readonly,
+                    sel_override=(None if base.sel_override is None else (lambda heap, idx, facts, so=base.sel_override, start=start: so(heap, (start + idx[0],), facts))),
                     owner=base.owner,
                 )
             raise Unsupported("array getitem with index %s" % [type(i).__name__ for i in idxs])
@@ -1340,6 +1384,9 @@ class Engine:
             raise Unsupported("setitem form index=%s value=%s" % ([type(i).__name__ for i in idxs], type(val).__name__))
         finally:
             for kind, f in obl:
+                if kind in FLOAT_SAFETY and not self.float_safety:
+                    self.sem.assumptions.add("float side conditions not checked (%s): float64 treated as real" % kind)
+                    continue
                 self._emit("safety", "%s@L%s" % (kind, self.cur_loc), p, f, self.cur_loc)
 
     # ------------------------------------------------------------------ iteration
